@@ -1,5 +1,178 @@
-(* C03 - property theorems only *)
-From VT Require Import Manager.RoomsSpec.
-Theorem C03_placeholder : forall m ns, members m ns = members m ns.
-Proof. reflexivity. Qed.
-Print Assumptions C03_placeholder.
+(* C03 - property theorems only (proofs in Manager/ManagerProofs.v, Manager/RoomsProofs.v) *)
+From VT Require Import Manager.Manager Manager.ManagerProofs Manager.RoomsSpec Check.C03Check
+                       Manager.RoomsProofs.
+From Coq Require Import Permutation.
+Open Scope N_scope.
+
+(* ---- A. the well-formedness invariant ---- *)
+(* WF m = distinct keys at every level (namespaces, rooms - names in the domain room_ok -,
+   sids, pending) /\ every member of a room is in room None of that namespace with the same
+   transport /\ transports are distinct inside room None *)
+Theorem C03_wf_init : WF mgr_init.
+Proof. exact WF_init. Qed.
+Print Assumptions C03_wf_init.
+
+Theorem C03_wf_connect : forall m eio ns sid,
+  WF m -> fresh_sid m sid -> WF (fst (mgr_connect m eio ns sid)).
+Proof. exact mgr_connect_wf. Qed.
+Print Assumptions C03_wf_connect.
+
+Theorem C03_wf_enter_room : forall m sid ns room,
+  WF m -> room_ok room -> WF (fst (enter_room m sid ns room)).
+Proof. exact enter_room_wf. Qed.
+Print Assumptions C03_wf_enter_room.
+
+Theorem C03_wf_leave_room : forall m sid ns room,
+  WF m -> room_ok room -> room <> PNone -> WF (leave_room m sid ns room).
+Proof. exact leave_room_wf. Qed.
+Print Assumptions C03_wf_leave_room.
+
+Theorem C03_wf_close_room : forall m room ns,
+  WF m -> room_ok room -> room <> PNone -> WF (close_room m room ns).
+Proof. exact close_room_wf. Qed.
+Print Assumptions C03_wf_close_room.
+
+Theorem C03_wf_disconnect : forall m sid ns, WF m -> WF (mgr_disconnect m sid ns).
+Proof. exact mgr_disconnect_wf. Qed.
+Print Assumptions C03_wf_disconnect.
+
+Theorem C03_wf_pre_disconnect : forall m sid ns, WF m -> WF (fst (pre_disconnect m sid ns)).
+Proof. exact pre_disconnect_wf. Qed.
+Print Assumptions C03_wf_pre_disconnect.
+
+Theorem C03_wf_generate_ack_id : forall m sid cb, WF m -> WF (fst (generate_ack_id m sid cb)).
+Proof. exact generate_ack_id_wf. Qed.
+Print Assumptions C03_wf_generate_ack_id.
+
+Theorem C03_wf_trigger_callback : forall m sid id, WF m -> WF (fst (trigger_callback m sid id)).
+Proof. exact trigger_callback_wf. Qed.
+Print Assumptions C03_wf_trigger_callback.
+
+(* the ValueDuplicationError branch of basic_enter_room is dead under WF *)
+Theorem C03_enter_room_no_duplication_error : forall m sid ns room,
+  WF m -> room_ok room -> snd (enter_room m sid ns room) <> Err OtherError.
+Proof. exact enter_room_no_dup_error. Qed.
+Print Assumptions C03_enter_room_no_duplication_error.
+
+(* WF after every history of manager operations, provided the generated sids are non-empty
+   and pairwise distinct and the room names are in the domain *)
+Theorem C03_wf : forall ops,
+  Forall op_ok ops -> NoDup (connect_sids ops) -> WF (fold_left mstep ops mgr_init).
+Proof. exact C03_wf_thm. Qed.
+Print Assumptions C03_wf.
+
+(* the same with the server model's id generator: sids "S<n>" for pairwise distinct n *)
+Theorem C03_wf_counter : forall ops ids,
+  Forall op_ok ops -> connect_sids ops = map sid_name ids -> NoDup ids ->
+  WF (fold_left mstep ops mgr_init).
+Proof. exact C03_wf_counter_thm. Qed.
+Print Assumptions C03_wf_counter.
+
+(* ---- B. recipients ---- *)
+Theorem C03_recipients : forall m ns target skip l,
+  WF m -> participants m ns target = Ok l ->
+  let rcp := filter (fun se => negb (skipped (skip_list skip) (fst se))) l in
+  Permutation rcp (spec_recipients m ns target skip) /\
+  NoDup (map fst rcp) /\ NoDup (map snd rcp) /\
+  (forall se, In se rcp -> In se (members m ns)).
+Proof. exact C03_recipients_thm. Qed.
+Print Assumptions C03_recipients.
+
+Theorem C03_participants_total : forall m ns t,
+  in_domain_target t = true -> exists l, participants m ns t = Ok l.
+Proof. exact participants_total. Qed.
+Print Assumptions C03_participants_total.
+
+Theorem C03_emit_effects : forall c event data ns room skip s pieces l,
+  emit_pieces c event data ns = Ok pieces -> participants (mg s) ns room = Ok l ->
+  mgr_emit c event data ns room skip None s =
+  (s, flat_map (fun se => map (Out (snd se)) pieces)
+        (filter (fun se => is_live s (snd se))
+                (filter (fun se => negb (skipped (skip_list skip) (fst se))) l)),
+   Ok tt).
+Proof. exact mgr_emit_effects. Qed.
+Print Assumptions C03_emit_effects.
+
+Theorem C03_emit_recipients : forall c event data ns room skip s pieces l,
+  WF (mg s) -> emit_pieces c event data ns = Ok pieces -> participants (mg s) ns room = Ok l ->
+  exists rcp,
+    Permutation rcp (spec_recipients (mg s) ns room skip) /\ NoDup (map snd rcp) /\
+    mgr_emit c event data ns room skip None s =
+    (s, flat_map (fun se => map (Out (snd se)) pieces) (filter (fun se => is_live s (snd se)) rcp), Ok tt).
+Proof. exact mgr_emit_recipients. Qed.
+Print Assumptions C03_emit_recipients.
+
+(* the model's own run passes the checker that is applied to the implementation *)
+Theorem C03_exec_emit_ok : forall c s ev data to room skip ns,
+  WF (mg s) ->
+  let o := ApiEmit ev data to room skip ns None in
+  c03_step c s o (snd (step c s o)) = true.
+Proof. exact C03_exec_emit. Qed.
+Print Assumptions C03_exec_emit_ok.
+
+Theorem C03_exec_rooms_ok : forall c s sid ns,
+  WF (mg s) ->
+  let o := ApiRooms sid ns in
+  c03_step c s o (snd (step c s o)) = true.
+Proof. exact C03_exec_rooms. Qed.
+Print Assumptions C03_exec_rooms_ok.
+
+(* ---- C. rooms(sid) and the frame lemmas ---- *)
+Theorem C03_rooms_listing : forall m sid ns,
+  WF m ->
+  let l := get_rooms m sid ns in
+  NoDup l /\ Forall room_ok l /\
+  (forall r, In r l -> r <> PNone /\ in_room m ns r sid = true) /\
+  (forall r, room_ok r -> r <> PNone -> in_room m ns r sid = true -> In r l).
+Proof. exact C03_rooms_listing_thm. Qed.
+Print Assumptions C03_rooms_listing.
+
+Theorem C03_after_enter : forall m sid ns room m',
+  WF m -> room_ok room -> enter_room m sid ns room = (m', Ok tt) ->
+  WF m' /\ in_room m' ns room sid = true /\
+  forall ns' r' s', room_ok r' -> (ns', r', s') <> (ns, room, sid) ->
+    in_room m' ns' r' s' = in_room m ns' r' s'.
+Proof. exact C03_after_enter_thm. Qed.
+Print Assumptions C03_after_enter.
+
+Theorem C03_enter_failed : forall m sid ns room m' e,
+  WF m -> room_ok room -> enter_room m sid ns room = (m', Err e) -> m' = m.
+Proof. exact C03_enter_failed_thm. Qed.
+Print Assumptions C03_enter_failed.
+
+Theorem C03_after_leave : forall m sid ns room,
+  WF m -> room_ok room ->
+  let m' := leave_room m sid ns room in
+  (room <> PNone -> WF m') /\ in_room m' ns room sid = false /\
+  forall ns' r' s', room_ok r' -> (ns', r', s') <> (ns, room, sid) ->
+    in_room m' ns' r' s' = in_room m ns' r' s'.
+Proof. exact C03_after_leave_thm. Qed.
+Print Assumptions C03_after_leave.
+
+Theorem C03_after_close : forall m room ns,
+  WF m -> room_ok room ->
+  let m' := close_room m room ns in
+  (room <> PNone -> WF m') /\ (forall s, in_room m' ns room s = false) /\
+  forall ns' r' s', room_ok r' -> (ns', r') <> (ns, room) ->
+    in_room m' ns' r' s' = in_room m ns' r' s'.
+Proof. exact C03_after_close_thm. Qed.
+Print Assumptions C03_after_close.
+
+Theorem C03_after_disconnect : forall m sid ns,
+  WF m ->
+  let m' := mgr_disconnect m sid ns in
+  WF m' /\ (forall r, in_room m' ns r sid = false) /\ get_rooms m' sid ns = [] /\
+  forall ns' r' s', room_ok r' -> (ns', s') <> (ns, sid) ->
+    in_room m' ns' r' s' = in_room m ns' r' s'.
+Proof. exact C03_after_disconnect_thm. Qed.
+Print Assumptions C03_after_disconnect.
+
+Theorem C03_after_connect : forall m eio ns sid m' s0,
+  WF m -> fresh_sid m sid -> mgr_connect m eio ns sid = (m', Some s0) ->
+  s0 = sid /\ WF m' /\
+  (forall ns' r', room_ok r' ->
+     (in_room m' ns' r' sid = true <-> ns' = ns /\ (r' = PNone \/ r' = PStr sid))) /\
+  get_rooms m' sid ns = [PStr sid] /\
+  forall ns' r' s', room_ok r' -> s' <> sid -> in_room m' ns' r' s' = in_room m ns' r' s'.
+Proof. exact C03_after_connect_thm. Qed.
+Print Assumptions C03_after_connect.
